@@ -315,9 +315,25 @@ fn add_stress(s: &mut Src, g: &mut G, v: &mut Vocab) -> Vec<GenQuery> {
             qs.push(GenQuery { words: vec!["stress".into(), format!("{opener}{c}")], cur: String::new(), kind: "stress" });
         }
     }
+    // one command, reached through a definition, expected at two different || levels
+    let d = pool[j].text.clone();
+    g.stmts.push(Stmt::Def { name: "PD".into(), shell: None, e: E::Cmd(d) });
+    g.stmts.push(Stmt::Call {
+        name: "cmd".into(),
+        e: E::Seq(vec![lit("st2"), E::Alt(vec![E::Seq(vec![nt("PD"), lit("one")]), E::Seq(vec![lit("two"), E::Fb(vec![lit("alpha"), nt("PD")])])])]),
+    });
+    let first_cand = pool[j].lines.first().map(|(c, _)| c.clone()).unwrap_or_default();
+    let mut q2 = vec![
+        GenQuery { words: vec!["st2".into()], cur: String::new(), kind: "stress_levels" },
+        GenQuery { words: vec!["st2".into(), "two".into()], cur: String::new(), kind: "stress_levels" },
+    ];
+    if !first_cand.is_empty() && !"alpha".starts_with(&first_cand[..1]) {
+        q2.push(GenQuery { words: vec!["st2".into(), "two".into()], cur: first_cand[..1].to_string(), kind: "stress_levels" });
+    }
     let pick = s.below(qs.len());
     let pick2 = s.below(qs.len());
-    vec![qs[pick].clone(), qs[pick2].clone(), qs[1].clone()]
+    let pick3 = s.below(q2.len());
+    vec![qs[pick].clone(), qs[pick2].clone(), qs[1].clone(), q2[pick3].clone(), q2[(pick3 + 1) % q2.len()].clone()]
 }
 
 fn case(bytes: &[u8]) -> Outcome {
@@ -328,7 +344,7 @@ fn case(bytes: &[u8]) -> Outcome {
     let lead: Vec<u8> = (0..8).map(|_| sq.byte()).collect();
     let mut extra = vec![];
     let mut ls = Src::new(&lead);
-    if ls.chance(2, 3) && !g.exprs().any(|e| e.has(&|x| matches!(x, E::Lit { text, .. } if text == "stress"))) {
+    if ls.chance(2, 3) && !g.exprs().any(|e| e.has(&|x| matches!(x, E::Lit { text, .. } if text == "stress" || text == "st2"))) && !g.defs().any(|(n, _, _)| n == "PD") {
         extra = add_stress(&mut ls, &mut g, &mut v);
     }
     let text = print_minimal(&g);
